@@ -93,6 +93,7 @@ def make_unit(iset, cube_name, cube_pred, memarch='PMSA', nregions=1, props=('C1
             eng.assume(it0_ == 0)       # ITSTATE is zero outside Thumb state
         else:
             eng.assume(implies(bits(it0_, 3, 0) == 0, it0_ == 0))      # the only ITSTATE with an empty mask is 0
+        eng.assume(bits(cpsr0, 23, 20) == 0)      # CPSR<23:20> reserved, RAZ (kept by every step: inv.cpsr below)
         for nm in ('hvbar', 'mvbar', 'vbar'):
             eng.assume(bits(init[nm], 4, 0) == 0)
         eng.assume(bits(init['mpuir'], 15, 8) <= nregions)
@@ -175,6 +176,9 @@ def make_unit(iset, cube_name, cube_pred, memarch='PMSA', nregions=1, props=('C1
         ob.props = ['C10']
         # ---- C04 alignment of the final PC for the final instruction set state
         cpsr1 = final['cpsr']
+        if sym.is_intlike(cpsr1):
+            ob = eng.oblige('inv.cpsr', '%s: the reserved bits CPSR<23:20> stay zero' % tag, bits(cpsr1, 23, 20) == 0)
+            ob.props = ['C10']
         pc1 = final['R.PC']
         if sym.is_intlike(cpsr1) and sym.is_intlike(pc1):
             is_arm = ST.iset(cpsr1) == ST.ISET_ARM
@@ -283,10 +287,15 @@ def make_unit(iset, cube_name, cube_pred, memarch='PMSA', nregions=1, props=('C1
                 exp, s_unpred, s_undef = SS.spec_step(r, st0, instr, 'arm' if iset == 'arm' else 'thumb', oplen, fix=fix)
                 skip = lor(lnot(r.match(instr)), s_unpred, s_undef)
                 named = []
+                unk = exp.get('__unkmask__', {})
                 for k, v in final.items():
                     if k in SCRATCH:
                         continue
-                    named.append((k, lor(skip, values_eq(v, exp[k]))))
+                    if k in unk and sym.is_intlike(v):
+                        keep = unk[k] ^ 0xFFFFFFFF          # bits with an architecturally UNKNOWN value are not compared
+                        named.append((k, lor(skip, values_eq(v & keep, exp[k] & keep))))
+                    else:
+                        named.append((k, lor(skip, values_eq(v, exp[k]))))
                 named.append(('mem', lor(skip, sym.SymBool(mem.term == exp['mem']))))
                 ob = eng.oblige_all('post', '%s: final state == architectural decode+operation (all leaves; frame)' % tag, named)
                 ob.props = [r.family or fam, dprop]
